@@ -17,6 +17,12 @@ CLAIMED["C13"] = {
     "note": "Offsets splitting a CR LF pair are excluded (never node/error offsets); trace validation covers the curated program list in corpus/ (constructs whose tree order differs from source order) and grows with the program generator; debug assertions on.",
     "technique": "TLA+ spec of the locator state machine model-checked by TLC against a declarative line/column definition; replay of TLC behaviours; TLC trace validation of hook-recorded locate events",
 }
+CLAIMED["C14"] = {
+    "text": "TLC builds every signature with <= 2/3 parameters per kind (positional-only, positional, *args, keyword-only, **kwargs; every default pattern the grammar allows, keyword-only defaults in any pattern), runs the mirror of to_python_arguments and into_arguments and checks it against declarative conversions (round trip up to the documented kw-only order, nothing lost, every default stays with its parameter); every signature is rendered as def / annotated def / async def / lambda, parsed and converted by the real code and compared with the specification's expected lists.",
+    "design_ref": "DESIGN.md section 6 C14",
+    "note": "Default feature set (ArgWithDefault::from_arg is todo!() under all-nodes-with-ranges, as the property notes); signatures come from the real parser; bounded number of parameters per kind.",
+    "technique": "TLA+ spec of the two parameter-list forms and their conversions model-checked by TLC (mirror vs declarative); all TLC-generated signatures replayed through parser + real conversions",
+}
 NOT_YET = {}
 
 def main():
